@@ -95,3 +95,31 @@ def brief(ev):
         return ev
     return {"id": ev["id"][:8], "k": ev["kind"], "t": ev["created_at"], "a": ev["pubkey"][:6],
             "tags": [t for t in ev["tags"] if t and t[0] in ("d", "e", "expiration")][:4]}
+
+
+def restart_changes(obs, backend):
+    """a restart (orderly close, fresh set-up on the same durable state) is not an operation on the store: the
+    events and their secondary structures (tag rows / index keys) are the same before and after.  Returns
+    violations; every Store-world property appends them under its own id (whatever a restart removes, adds or
+    un-indexes breaks that property's 'nothing else' clause)."""
+    out = []
+    for o in obs:
+        if o["op"][0] != "restart" or "post" not in o or "pre" not in o:
+            continue
+        pre, post = o["pre"], o["post"]
+        gone = sorted(set(pre) - set(post))
+        new = sorted(set(post) - set(pre))
+        if gone or new:
+            x = pre[gone[0]] if gone else post[new[0]]
+            out.append({"cls": "restart-changes-store", "sig": "restart-changes-store|%s|%s" % (backend, "removed" if gone else "added"),
+                        "detail": {"removed": [brief(pre[i]) for i in gone[:4]], "added": [brief(post[i]) for i in new[:4]],
+                                   "kind": x.get("kind")}})
+            continue
+        if "pre_full" in o and "post_full" in o:
+            a, b = o["pre_full"][1], o["post_full"][1]
+            if set(a) != set(b):
+                lost = sorted(map(repr, set(a) - set(b)))[:3]
+                extra = sorted(map(repr, set(b) - set(a)))[:3]
+                out.append({"cls": "restart-changes-index", "sig": "restart-changes-index|%s|%s" % (backend, "lost" if lost else "extra"),
+                            "detail": {"lost": [x[:80] for x in lost], "extra": [x[:80] for x in extra]}})
+    return out
